@@ -115,8 +115,8 @@ def execute(sc, sched):
     if overlap:
       sim.probe('concurrent_posters')
       res.nontrivial.append(hash((sc['queue_size'], tuple(ev_order))))
-    if o is not None and any(k == 'queue' and op == 'put' and lab == o.locking_deque.locking_queue._label for _, _, k, lab, op, _ in sim.history[-1:]):
-      pass
+    if run.token_queue_full_seen:
+      sim.probe('token_queue_full')
     if res.outcome == 'violation' or sched.get('seed', 0) % 499 == 0:
       res.sample = {'capacity': sc['queue_size'], 'clients': sc['clients'], 'sched': sc['sched'],
                     'dispatched': [(d[2], d[3]) for d in run.dispatch[:20]], 'steps': sim.steps, 'outcome': res.outcome}
